@@ -429,7 +429,7 @@ func c02ProgramGroup(r *report.R, gid string) {
 			continue
 		}
 		to := p.addr
-		args := vn.EthArgs{Type: rng.Intn(3), Nonce: n.EthNonce(a.Eth), To: &to, Gas: uint64(300000 + rng.Intn(2_000_000)), GasPrice: big.NewInt(1_000_000_000), GasFeeCap: big.NewInt(1_000_000_000), GasTipCap: big.NewInt(1_000_000_000), Value: big.NewInt(int64(rng.Intn(500)))}
+		args := vn.EthArgs{Data: []byte{1}, Type: rng.Intn(3), Nonce: n.EthNonce(a.Eth), To: &to, Gas: uint64(300000 + rng.Intn(2_000_000)), GasPrice: big.NewInt(1_000_000_000), GasFeeCap: big.NewInt(1_000_000_000), GasTipCap: big.NewInt(1_000_000_000), Value: big.NewInt(int64(rng.Intn(500)))}
 		tx := n.SignEth(a, args)
 		addrs := append(append(all, p.targets()...), a.Eth)
 		ref := gethRef(n, tx, nil, addrs)
